@@ -855,6 +855,10 @@ class UsersDictionary(utils.IterableMap):
     def setUser(self, user, flush=True):
         """Sets a user (given its id) to the IrcUser given it."""
         self.nextId = max(self.nextId, user.id)
+        for (when, hostmask) in user.auth:
+            # Whatever is cached for a hostmask this user is identified from
+            # may have been computed before the identification.
+            self.invalidateCache(hostmask=hostmask)
         try:
             if self.getUserId(user.name) != user.id:
                 raise DuplicateHostmask(user.name, user.name)
